@@ -35,15 +35,15 @@ CHECKS = {
  "C04": dict(level="model_checking", design="4/C04", technique="TLA+ DnsWire: TLC model-checks the size-limited emission design over all small size vectors and validates traces of DNSPkt::serialise_with_size (DnsWireTrace); transport limits end-to-end when the DNS rig is available",
    text="TLC checks the C04 clauses on the emission model for every record-size vector (and refutes the count-splice variant), then evaluates them on every response produced by the real serialise_with_size for messages whose unlimited encoding lands at limit-1/limit/limit+1 and far beyond, as parsed by an independent walker.",
    note="function level decides well-formedness/limit/TC/prefix for the encoder; which limit the UDP and TCP listeners pass is covered by the end-to-end rig part"),
- "C06": dict(level="model_checking", design="4/C06", technique="TLA+ DnsCache: exhaustive MC (TLC) of insert/lookup/tick/sweep interleavings + TLC trace validation (DnsCacheTrace) of the cache's own code under tokio's paused clock",
+ "C06": dict(level="model_checking", design="4/C06", technique="TLA+ DnsCache: exhaustive MC (TLC) of insert/lookup/tick/sweep interleavings + TLC trace validation (DnsCacheTrace) of the cache's own code under tokio's paused clock + TLC trace validation (CacheE2ETrace) of the real DnsService in real time with short TTLs",
    text="P06 (hit only for the same key within the smallest TTL, TTL = original - whole seconds elapsed, miss after expiry) holds on every transition of MC_DnsCache (two keys, TTL vectors with different minima incl. 0, half-second steps, sweeps; unbounded time) and is evaluated on every lookup of hundreds of scenarios driven through the real insert/lookup/expire code with exact virtual time, including TTLs 2^16, 2^31, 2^32-1 and near-miss keys built as wire queries.",
-   note="hook repeats three lines of handle_query; name equality read case-insensitively"),
+   note="the function-level hook repeats three lines of CacheHandler::handle_query (key construction, insert, lookup); those lines themselves are bound by the service-level part (same and near-miss keys in waves, ages bounded by the event times); name equality read case-insensitively"),
  "C14": dict(level="model_checking", design="4/C14", technique="TLA+ DnsWire (compression-pointer discipline) + TLC trace validation (DnsWireTrace) of DNSPkt::serialise walked by an independent walker and re-decoded by the crate's parser",
    text="For structured messages up to 2000 records / 64 KiB (all name-bearing rdata types, shared suffixes at every depth, suffixes first written around offset 16384) and for mutated byte strings the decoder accepts: TLC checks every compression pointer (backwards, < 16384, to a label start) and the equality of the abstract messages (walker projection of the bytes vs the message built by the harness; crate decoder's result vs original).",
    note="fidelity via projection (walker, digests); beyond 300 records pointer summaries instead of every pointer"),
- "C16": dict(level="model_checking", design="4/C16", technique="TLA+ DnsRateLimit: exhaustive MC (TLC) of check/deplete interleavings (1 and 2 handlers) + TLC trace validation (RateLimitTrace) of the real token bucket under a virtual clock and of the real cookie validation",
+ "C16": dict(level="model_checking", design="4/C16", technique="TLA+ DnsRateLimit: exhaustive MC (TLC) of check/deplete interleavings (1 and 2 handlers) + TLC trace validation (RateLimitTrace) of the real token bucket under a virtual clock, of the real cookie validation, and of floods of refused queries at the real listener",
    text="TLC proves Bound and Quiet on the bucket model (one handler; two handlers with burst H*B) and refutes the strict bound under the check/deplete race and Quiet when the minimum charge exceeds the capacity; the real bucket is flooded and left idle under a virtual clock and judged against a fixed envelope; cookies issued under 4 keys x 3 client cookies x 4 client/server addresses are presented unchanged/mangled/cross-address under (current, previous) keys and against the live keys.",
-   note="envelope 65536 tokens + 4096/s; the two-bucket limiter and cost function are reached only end-to-end"),
+   note="envelope 65536 tokens + 4096/s; the two-bucket limiter and the cost function are inline in the listener and bound by the service-level floods (800 queries per source at the real listener, REFUSED datagrams counted at the client, a quiet source at the end)"),
  "C03": dict(level="model_checking", design="4/C03", technique="TLA+ DnsForward (reply assembly, MC with TLC) + TLC trace validation (ForwardTrace) of the real DnsService in a private network namespace against scripted upstreams",
    text="Every query/reply pair of the end-to-end rig is judged by TLC: id, question, QR and rcode of the client's reply and section-wise equality (record order, names expanded, types, classes, rdata; TTL only reduced, equal when uncached) with what the scripted upstream sent, both projected by an independent walker; upstream replies are generated structured messages of all rdata shapes, compressed or not, over UDP and TCP, IPv4 and IPv6 upstreams.",
    note="in-process service in a private namespace (unshare -n -m); real sockets and timers; projections by the harness"),
